@@ -1004,11 +1004,27 @@ def run(chk):
     chk.correspond('ion_type_sets', DRV, names, lambda t: f'classify\t{t}', cls_impl)
 
     def consts_impl(_):
-        src = open(fr_mod.__file__).read()
-        m1 = re.search(r"if water_loss:\s*losses\.append\(\('\[([A-Z]+)\]', (-?[\d.]+)\)\)", src)
-        m2 = re.search(r"if ammonia_loss:\s*losses\.append\(\('\[([A-Z]+)\]', (-?[\d.]+)\)\)", src)
-        return f'{float(m1.group(2)):.12f},{float(m2.group(2)):.12f},{m1.group(1)},{m2.group(1)}'
-    chk.correspond('loss_literals', DRV, [0], lambda _: 'consts', consts_impl)
+        # the two built-in loss rules, read off the BEHAVIOUR of fragment() (not off the source text: where the
+        # literals live in the file is not observable and a refactor may move them)
+        def probe(flag):
+            val, cls = None, ''
+            for aa in 'ACDEFGHIKLMNPQRSTVWY':
+                frs = pt.fragment(aa, 'b', 1, **{flag: True})
+                ls = sorted({f.loss for f in frs if f.loss != 0})
+                if ls:
+                    cls += aa
+                    val = ls[0] if val is None else val
+            return val, cls
+        w, wc = probe('water_loss')
+        a, ac = probe('ammonia_loss')
+        return f'{w:.12f},{a:.12f},{"".join(sorted(wc))},{"".join(sorted(ac))}'
+
+    def consts_cmp(im, m):
+        if im.startswith('EXC') or m.count(',') != 3:
+            return im == m
+        a, b = im.split(','), m.split(',')
+        return a[:2] == b[:2] and sorted(a[2]) == sorted(b[2]) and sorted(a[3]) == sorted(b[3])
+    chk.correspond('loss_literals', DRV, [0], lambda _: 'consts', consts_impl, compare=consts_cmp)
 
     num_cases = [(t, n, s, e) for t in names for n in range(0, 6) for s in range(0, n + 1) for e in range(s, n + 1)]
 
